@@ -38,10 +38,10 @@ def lfOp? (s : String) : Option LogQL.LFOp :=
   | ["T", n, nodes] => do some (.tmpl (← hexOrEmpty? n) (← tplNodes? nodes))
   | _ => none
 
-def tagOp? : String → Option Tempo.TagOp
+def tagOp? : String → Option TempoSegs.TagOp
   | "eq" => some .eq | "neq" => some .neq | "re" => some .re | "nre" => some .nre | _ => none
 
-def tag? (s : String) : Option Tempo.Tag :=
+def tag? (s : String) : Option TempoSegs.Tag :=
   match s.splitOn ":" with
   | [n, op, v] => do some ⟨← hexOrEmpty? n, ← tagOp? op, ← hexOrEmpty? v⟩
   | _ => none
@@ -73,11 +73,11 @@ def handle : List String → Option String
     let mx ← maxDur.toInt?
     let l ← limit.toInt?
     let ts ← if tags = "-" then some [] else (tags.splitOn ";").mapM tag?
-    some (hexOut (Tempo.searchText ⟨← ofHex tracesTable, l, f, t, mn, mx⟩ ⟨← ofHex idxTable, f, t, mn, mx, l, v2 = "1"⟩ ts))
+    some (hexOut (TempoSegs.searchText ⟨← ofHex tracesTable, l, f, t, mn, mx⟩ ⟨← ofHex idxTable, f, t, mn, mx, l, v2 = "1"⟩ ts))
   | ["c10tempotrace", table, id, s, e] => do
-    some (hexOut (renderSel (Tempo.traceSel (← Driver.C07.str? table) (← hexOrEmpty? id) (← s.toInt?) (← e.toInt?))))
+    some (hexOut (renderSel (TempoSegs.traceSel (← Driver.C07.str? table) (← hexOrEmpty? id) (← s.toInt?) (← e.toInt?))))
   | ["c10tempovalues", table, tag] => do
-    some (hexOut (renderSel (Tempo.tagValuesSel (← Driver.C07.str? table) (← hexOrEmpty? tag))))
+    some (hexOut (renderSel (TempoSegs.tagValuesSel (← Driver.C07.str? table) (← hexOrEmpty? tag))))
   | ["c10census"] =>
     let es := RawSql.Table.entries
     some s!"sites={Gen.RawSqlSites.sites.length} const={Gen.RawSqlSites.constSites} sql={(es.filter (·.role == .sql)).length}       request-carrying={(es.filter RawSql.carriesRequestText).length} marker={(es.filter (·.role == .marker)).length}       notSql={(es.filter (·.role == .notSql)).length} dead={(es.filter (·.role == .dead)).length}"
